@@ -185,11 +185,21 @@ pub fn mb_layout(mb: &[u8]) -> Layout {
 
 pub fn edge_value(rng: &mut TestRng, len: usize) -> u64 {
     let max = if len >= 64 { u64::MAX } else { (1u64 << len) - 1 };
-    match rng.below(6) {
+    match rng.below(8) {
         0 => 0,
         1 => 1.min(max),
         2 => max,
         3 => max.saturating_sub(1),
+        4 => {
+            // a power of two, or one below / above it (sign bits, carries, half-range boundaries)
+            let k = rng.below(len.max(1) as u64);
+            let p = 1u64 << k;
+            match rng.below(3) {
+                0 => p & max,
+                1 => p.saturating_sub(1) & max,
+                _ => (p + 1) & max,
+            }
+        }
         _ => rng.bits(len as u32),
     }
 }
